@@ -2,7 +2,7 @@
    ExtrOcamlBasic only. *)
 From Coq Require Extraction.
 From Coq Require Import ExtrOcamlBasic.
-From CS Require Import Base.Prelude Base.CasProto Model.Catalog Model.CatalogCas.
+From CS Require Import Base.Prelude Base.CasProto Model.CasFault Model.Catalog Model.CatalogCas.
 Extraction Language OCaml.
 
-Extraction "../ocaml/gen/catalogcas_model.ml" cat_step cat_init cur_val s3_list s3_apply cat_of mkMeta.
+Extraction "../ocaml/gen/catalogcas_model.ml" cat_step cat_init cat_fstep cat_finit cur_val s3_list s3_apply cat_of mkMeta.
